@@ -18,6 +18,7 @@ Log records (tuples; G = global action number, st = kernel step number):
 from .core import san
 from .tap import TapEnvironment, EmptySchedule, StopSimulation, Event
 from onl.sim import Interrupt
+from onl.sim.events import Timeout as _Timeout, Process as _Process, AllOf as _AllOf, AnyOf as _AnyOf, Condition as _Condition
 
 class HarnessAbort(BaseException):
     """A user exception that derives directly from BaseException (legal for Event.fail and for process bodies)."""
@@ -147,6 +148,10 @@ def gen_ops(rng, prof, ctx, pid, depth):
             op = {'op': 'negtimeout', 'd': -rng.choice([1, 0.5, 2.0 ** -52, 1e-9, 3])}
         elif k == 'fire':
             op = {'op': 'fire', 'd': rng.choice(pool), 'v': ctx['val'](), 'cb': 'f%d' % ctx['val']()}
+        elif k == 'addcb' and len(ctx['shared']) >= 2 and rng.random() < 0.3:
+            # event chaining: `dst.trigger` registered as a callback of src hands src's outcome on to dst
+            a, b = rng.sample(ctx['shared'], 2)
+            op = {'op': 'chain', 'src': a, 'dst': b}
         elif k == 'addcb':
             if not ctx['shared']:
                 continue
@@ -188,7 +193,7 @@ def gen_program(rng, prof):
                           'defuse': rng.random() < 0.5})
     rng.shuffle(setup)
     return {'engine': 'K', 't0': rng.choice([0, 0, 0, 1, 0.5, 10, -3, -0.25, 2.0 ** 40, 7200.0]), 'shared': shared, 'setup': setup,
-            'drive': [['run']]}
+            'drive': [['run']], 'doors': 'cls' if rng.random() < 0.2 else 'env'}
 
 
 # --------------------------------------------------------------------------- interpretation
@@ -209,6 +214,34 @@ class World:
         env.log.append((tag, env.tick(), env.now, env.step_no if env.in_step else None) + rest)
 
     # plain callbacks ---------------------------------------------------------------------------
+    # the same objects through the other public door: the classes themselves instead of the Environment's factories
+    doors = 'env'
+
+    def mk_timeout(self, d, v=None):
+        if self.doors == 'cls':
+            return _Timeout(self.env, d, v)
+        return self.env.timeout(d, v)
+
+    def mk_event(self):
+        if self.doors == 'cls':
+            return Event(self.env)
+        return self.env.event()
+
+    def mk_process(self, gen):
+        if self.doors == 'cls':
+            return _Process(self.env, gen)
+        return self.env.process(gen)
+
+    def mk_all(self, kids):
+        if self.doors == 'cls':
+            return _AllOf(self.env, kids) if len(kids) % 2 else _Condition(self.env, _Condition.all_events, kids)
+        return self.env.all_of(kids)
+
+    def mk_any(self, kids):
+        if self.doors == 'cls':
+            return _AnyOf(self.env, kids) if len(kids) % 2 else _Condition(self.env, _Condition.any_events, kids)
+        return self.env.any_of(kids)
+
     def make_cb(self, cbid, defuse):
         def cb(event, self=self, cbid=cbid, defuse=defuse):
             ok = getattr(event, '_ok', None)
@@ -237,7 +270,7 @@ class World:
         if 'leaf' in node:
             k = node['leaf']
             if k == 'timeout':
-                ev = env.timeout(node['d'], node.get('v'))
+                ev = self.mk_timeout(node['d'], node.get('v'))
                 env.name(ev, label)
                 lb = env.label(ev)
             elif k == 'shared':
@@ -283,9 +316,9 @@ class World:
         self.rec('K0', label)
         try:
             if t == 'all':
-                ev = env.all_of(kids)
+                ev = self.mk_all(kids)
             elif t == 'any':
-                ev = env.any_of(kids)
+                ev = self.mk_any(kids)
             elif t == 'and':
                 ev = kids[0] & kids[1]
             else:
@@ -304,7 +337,7 @@ class World:
 
     # process bodies ----------------------------------------------------------------------------
     def start_proc(self, pid, ops, by=None):
-        p = self.env.process(self.body(pid, ops))
+        p = self.mk_process(self.body(pid, ops))
         self.env.name(p, pid)
         tgt = p.target
         if tgt is not None and type(tgt).__name__ == 'Initialize':
@@ -352,7 +385,7 @@ class World:
             if h == 'raise':
                 raise KeyError('handler', pid, i)
             # 'other': wait for something else, then go on
-            ev = env.timeout(op.get('hd', 0.5), 'h')
+            ev = self.mk_timeout(op.get('hd', 0.5), 'h')
             env.name(ev, '%s.%d.h%d' % (pid, i, tries))
             tries += 1
             if tries > 2:
@@ -366,7 +399,7 @@ class World:
                 k = op['op']
                 ev = None
                 if k == 'timeout':
-                    ev = env.timeout(op['d'], op.get('v'))
+                    ev = self.mk_timeout(op['d'], op.get('v'))
                     env.name(ev, '%s.%d' % (pid, i))
                 elif k == 'wait':
                     ev = self.shared.get(op['ev'])
@@ -422,9 +455,23 @@ class World:
                     if tgt is not None:
                         self.add_cb(tgt, op['id'], op.get('defuse', False), pid)
                     continue
+                elif k == 'chain':
+                    src, dst = self.shared.get(op['src']), self.shared.get(op['dst'])
+                    if src is None or dst is None or src is dst or src.callbacks is None:
+                        continue
+
+                    def hand_on(ev, dst=dst, a=op['src'], b=op['dst']):
+                        if dst.triggered:
+                            self.rec('O', None, None, 'chain-skip', b, a)
+                            return
+                        dst.trigger(ev)
+                        self.rec('O', None, None, 'chained', b, a)
+                    src.callbacks.append(hand_on)
+                    self.rec('O', pid, i, 'chain', op['src'], op['dst'])
+                    continue
                 elif k == 'fire':
                     try:
-                        fev = env.timeout(op['d'], op.get('v'))
+                        fev = self.mk_timeout(op['d'], op.get('v'))
                     except ValueError:
                         continue
                     env.name(fev, '%s.%d' % (pid, i))
@@ -434,7 +481,7 @@ class World:
                 elif k == 'negtimeout':
                     n0 = len(env.log)
                     try:
-                        env.timeout(op['d'])
+                        self.mk_timeout(op['d'])
                         out = 'accepted'
                     except ValueError:
                         out = 'ValueError'
@@ -487,8 +534,9 @@ def setup_world(case, env=None):
     if case.get('noprobe'):
         env.probe_enabled = False
     w = World(env)
+    w.doors = case.get('doors', 'env')
     for s in case.get('shared', []):
-        ev = env.event()
+        ev = w.mk_event()
         env.name(ev, s)
         w.shared[s] = ev
     for it in case.get('setup', []):
@@ -498,7 +546,7 @@ def setup_world(case, env=None):
                 w.start_proc(it['id'], it.get('ops', []))
         elif k == 'timeout':
             try:
-                ev = env.timeout(it['d'], it.get('v'))
+                ev = w.mk_timeout(it['d'], it.get('v'))
             except ValueError:
                 continue
             env.name(ev, it['id'])
